@@ -1,0 +1,64 @@
+/*
+ * Verification hooks. Only compiled with `--cfg starlark_verif`; no effect unless a knob is set.
+ */
+
+//! Knobs and observers used by the out-of-tree verification harness.
+
+use std::cell::Cell;
+
+use crate::values::Value;
+use crate::values::ValueLike;
+use crate::values::types::bigint::StarlarkBigInt;
+
+thread_local! {
+    static GC_EVERY: Cell<u64> = const { Cell::new(0) };
+    static SAFEPOINTS: Cell<u64> = const { Cell::new(0) };
+    static FORCED: Cell<u64> = const { Cell::new(0) };
+    static POISON: Cell<bool> = const { Cell::new(false) };
+}
+
+/// Collect at every `k`-th GC safepoint of this thread (0 = default threshold behaviour).
+pub fn set_gc_every(k: u64) {
+    GC_EVERY.with(|c| c.set(k));
+    SAFEPOINTS.with(|c| c.set(0));
+    FORCED.with(|c| c.set(0));
+}
+
+/// `(safepoints seen, collections forced)` on this thread since `set_gc_every`.
+pub fn gc_counters() -> (u64, u64) {
+    (SAFEPOINTS.with(|c| c.get()), FORCED.with(|c| c.get()))
+}
+
+/// Overwrite arena memory with a poison pattern just before it is released (this thread).
+pub fn set_poison(on: bool) {
+    POISON.with(|c| c.set(on));
+}
+
+pub(crate) fn poison_enabled() -> bool {
+    POISON.try_with(|c| c.get()).unwrap_or(false)
+}
+
+pub(crate) fn gc_safepoint() -> bool {
+    let n = SAFEPOINTS.with(|c| {
+        c.set(c.get() + 1);
+        c.get()
+    });
+    let k = GC_EVERY.with(|c| c.get());
+    if k != 0 && n % k == 0 {
+        FORCED.with(|c| c.set(c.get() + 1));
+        true
+    } else {
+        false
+    }
+}
+
+/// Representation of an integer value: `small`, `big`, or `None` when not an integer.
+pub fn int_repr(v: Value) -> Option<&'static str> {
+    if v.unpack_inline_int().is_some() {
+        Some("small")
+    } else if v.downcast_ref::<StarlarkBigInt>().is_some() {
+        Some("big")
+    } else {
+        None
+    }
+}
